@@ -85,24 +85,43 @@ def trajectory(env, np_seed, plan_seed, n_steps):
 
 def planner_trajectory(env, np_seed, plan_seed, n_steps):
     """Look-ahead from a kept checkpoint: a chain of generative steps that
-    starts at the state object the environment holds after reset."""
+    starts at the state object the environment holds after reset.  Every
+    step is executed twice from the same state object with the generator
+    re-seeded identically (a planner expanding a node twice); the two results
+    must be bit-identical.  Actions sweep the action space (brute force), so
+    that the chain makes attack progress."""
     import numpy as np
-    np.random.seed(np_seed)
     rng = random.Random(plan_seed)
     m = hashlib.sha256()
     state = env._planner_checkpoint
     flat = env.flat_actions
-    nvec = None if flat else [int(v) for v in env.action_space.nvec]
-    for _ in range(n_steps):
-        if flat:
-            a = rng.randrange(env.action_space.n)
-        else:
-            a = [rng.randrange(v) for v in nvec]
-        nxt, obs, r, done, info = env.generative_step(state, a)
-        m.update(np.asarray(nxt.tensor).tobytes())
-        m.update(np.asarray(obs.tensor).tobytes())
-        m.update(repr((float(r).hex(), bool(done), canon(info))).encode())
-        state = nxt
+    if flat:
+        n = env.action_space.n
+        acts = [(rng.randrange(n) + i) % n for i in range(n_steps)]
+    else:
+        import itertools
+        nvec = [int(v) for v in env.action_space.nvec]
+        allv = list(itertools.islice(
+            itertools.product(*[range(v) for v in nvec]), 5000))
+        off = rng.randrange(len(allv))
+        acts = [list(allv[(off + i) % len(allv)]) for i in range(n_steps)]
+
+    def dig(res):
+        nxt, obs, r, done, info = res
+        return (np.asarray(nxt.tensor).tobytes(),
+                np.asarray(obs.tensor).tobytes(),
+                repr((float(r).hex(), bool(done), canon(info))))
+    for i, a in enumerate(acts):
+        np.random.seed((np_seed + i) % (2 ** 32))
+        r1 = env.generative_step(state, a)
+        d1 = dig(r1)
+        np.random.seed((np_seed + i) % (2 ** 32))
+        d2 = dig(env.generative_step(state, a))
+        if d1 != d2:
+            return "REPEAT-DIFFERS-AT-STEP-%d" % i
+        for part in d1:
+            m.update(part if isinstance(part, bytes) else part.encode())
+        state = r1[0]
     return m.hexdigest()[:20]
 
 
@@ -150,10 +169,10 @@ def run_job(job):
             env.reset()
             env._planner_checkpoint = env.current_state
             a = planner_trajectory(env, job["np_seed"], job["plan_seed"],
-                                   min(job["steps"], 120))
+                                   job["steps"])
             b = planner_trajectory(env, job["np_seed"], job["plan_seed"],
-                                   min(job["steps"], 120))
-            if a != b:
+                                   job["steps"])
+            if a != b or a.startswith("REPEAT-DIFFERS"):
                 out.append("PLANNER-REPLAY-DIFFERS:" + a + "/" + b)
         return out
     raise ValueError(kind)
